@@ -374,7 +374,8 @@ chunk* small_free_memory_list::find_chunk_impl(unsigned char* node, chunk_base* 
 
         first = first->next;
         last  = last->prev;
-    } while (!greater(first, last));
+        // stop when the iterators cross or one of them wrapped around to the proxy node
+    } while (first != &base_ && last != &base_ && !greater(first, last));
     return nullptr;
 }
 
